@@ -357,7 +357,7 @@ fn run(cfg: &Cfg) -> Report {
     let specials: Vec<G> = (0..SPECIALS.len() as u16).map(G::Special).collect();
     rep.absorb(run_enumerated(cfg, "special", &specials, |g| json!({"gen": g, "inputs": inputs_of(g).0}), check));
     if !rep.failed() {
-        let cases = cfg.tier.pick(250u32, 10000u32);
+        let cases = cfg.tier.pick(1000u32, 10000u32);
         rep.absorb(run_proptest(
             cfg,
             "generated",
